@@ -62,6 +62,18 @@ pub fn filters() -> Vec<Cfg> {
             }
         }
     }
+    // an IPv4-mapped IPv6 endpoint (::ffff:10.0.0.1) is an IPv6 endpoint: listed as such it matches, the IPv4 address it
+    // embeds and IPv4 blocks do not, IPv6 blocks do
+    for deny in [false, true] {
+        for (src, dst) in [(true, false), (false, true), (true, true)] {
+            for a in ["::ffff:10.0.0.1", "::ffff:10.0.0.2", "10.0.0.1"] {
+                v.push(Cfg { deny, pf: None, af: Some(AF { addrs: vec![s(a)], src, dst }), sf: None });
+            }
+            for n in ["::/0", "::ffff:0:0/96", "::ffff:10.0.0.0/127", "0.0.0.0/0", "10.0.0.0/8"] {
+                v.push(Cfg { deny, pf: None, af: None, sf: Some(AF { addrs: vec![s(n)], src, dst }) });
+            }
+        }
+    }
     v.push(Cfg { deny: false, pf: None, af: None, sf: None });
     v
 }
@@ -235,6 +247,8 @@ pub fn traces() -> Vec<Trace> {
             (ep(false, &[134, 0, 0x45, 1], 40020), ep(false, &[10, 0, 0, 2], 1030)),
             (ep(false, &[134, 0, 1, 1], 40023), ep(false, &[10, 0, 0, 2], 80)),
             (ep(false, &[8, 221, 0x45, 1], 40021), ep(false, &[10, 0, 0, 2], 262)),
+            (ep(true, &[0, 0, 0, 0, 0, 0, 0, 0, 0, 0, 0xff, 0xff, 10, 0, 0, 1], 40024), ep(true, &[0, 0, 0, 0, 0, 0, 0, 0, 0, 0, 0xff, 0xff, 10, 0, 0, 2], 80)),
+            (ep(true, &[0, 0, 0, 0, 0, 0, 0, 0, 0, 0, 0xff, 0xff, 10, 0, 0, 1], 40025), ep(true, &[0, 0, 0, 0, 0, 0, 0, 0, 0, 0, 0xff, 0xff, 10, 0, 0, 2], 443)),
             (ep(true, &[0x20, 1, 0xd, 0xb8, 0x86, 0, 0x45, 0, 0, 0, 0, 0, 0, 0, 0, 1], 40022), ep(true, &[0x20, 1, 0xd, 0xb8, 0, 0, 0, 0, 0, 0, 0, 0, 0, 0, 0, 2], 80)),
         ] {
             rich.push(vec![fb(&c, &sv, SYN, 1000, &[], false), fb(&sv, &c, SYN | ACK, 5000, &[], false), fb(&c, &sv, ACK | PSH, 1001, if sv.port == 443 { &hello } else { &req }, false), fb(&sv, &c, ACK | PSH, 5001, &resp, false)]);
